@@ -51,7 +51,7 @@ USER = ["UInt8or16", "FloatRe", "Mixed"]
 PROBE_DTYPES = ["bool", "int8", "uint8", "uint16", "int32", "float16", "float32", "float64", "complex64"]
 PROBE_SHAPES = [(), (1,), (3,), (4,), (3, 4), (1, 4), (3, 1), (2, 3, 4), (3, 3)]
 PAIR_SHAPES = [((3,), (4,)), ((3, 4), (3, 5)), ((2, 3), (4, 3)), ((1, 4), (2, 4)), ((3, 4), (2, 3, 4)), ((2, 2), (3, 3)), ((3, 4), (3, 4))]
-ROUTES = ["pickle0", "pickle1", "pickle2", "pickle3", "pickle4", "pickle5", "cloudpickle", "copy", "deepcopy"]
+ROUTES = ["pickle0", "pickle1", "pickle2", "pickle3", "pickle4", "pickle5", "cloudpickle", "copy", "deepcopy", "cloudpickle0", "cloudpickle1", "cloudpickle2"]
 
 
 def cat_obj(name):
@@ -144,10 +144,10 @@ def probe_label(i):
 def roundtrip(ann, route):
     if route.startswith("pickle"):
         return pickle.loads(pickle.dumps(ann, protocol=int(route[6:])))
-    if route == "cloudpickle":
+    if route.startswith("cloudpickle"):
         import cloudpickle
 
-        return cloudpickle.loads(cloudpickle.dumps(ann))
+        return cloudpickle.loads(cloudpickle.dumps(ann, protocol=int(route[11:])) if route[11:] else cloudpickle.dumps(ann))
     if route == "copy":
         return copy.copy(ann)
     return copy.deepcopy(ann)
@@ -309,13 +309,13 @@ def run_cross(ctx, cross):
 
 @st.composite
 def array_type_desc(draw, depth=0):
-    k = draw(st.sampled_from(["np", "np", "nested", "any", "jax", "duck", "union", "nested"] if depth == 0 else ["np", "any", "jax", "duck"]))
+    k = draw(st.sampled_from(["np", "np", "nested", "any", "jax", "duck", "union", "nested"] if depth == 0 else (["np", "nested", "any", "jax", "duck"] if depth == 1 else ["np", "any", "jax", "duck"])))
     if k == "union":
         a, b = draw(st.permutations(["np", "jax", "duck"]))[:2]
         return ["union", [a], [b]]
     if k == "nested":
-        toks = draw(gd.legal_spec(max_axes=2, names=["a", "b"], vnames=["v"], multi_prob=0.3))
-        return ["nested", draw(st.sampled_from(CATS + USER)), dl.spec_spelling(toks), draw(array_type_desc(depth=1))]
+        toks = draw(gd.legal_spec(max_axes=2, names=["a", "b"], vnames=["v"], multi_prob=0.3)) if draw(st.integers(0, 3)) else []  # (an empty level, too)
+        return ["nested", draw(st.sampled_from(CATS + USER)), dl.spec_spelling(toks), draw(array_type_desc(depth=depth + 1))]
     return [k]
 
 
@@ -340,7 +340,11 @@ def nested_focus(draw):
     if not t_out and draw(st.integers(0, 3)) != 0:
         # mostly a non-empty outer spec: then the nested annotation prints (and its dim_str reads) exactly like the flat one
         t_out = [dl.Token("", "name", draw(st.sampled_from(["b", "a"])))]
-    return {"cat": outer, "at": ["nested", inner, dl.spec_spelling(t_in), [draw(st.sampled_from(["np", "np", "any", "duck"]))]], "spec": dl.spec_spelling(t_out)}
+    at = ["nested", inner, dl.spec_spelling(t_in), [draw(st.sampled_from(["np", "np", "any", "duck"]))]]
+    if draw(st.integers(0, 3)) == 0:
+        # three levels, the middle one without any axis of its own
+        at = ["nested", draw(st.sampled_from(["Shaped", outer])), "", at]
+    return {"cat": outer, "at": at, "spec": dl.spec_spelling(t_out)}
 
 
 @st.composite
